@@ -1880,6 +1880,29 @@ func (self *Aof) OpenAofFile(aofIndex uint32) (*AofFile, error) {
 	return aofFile, nil
 }
 
+func (self *Aof) findAofFilesUnchecked() ([]string, string, error) {
+	appendFiles := make([]string, 0)
+	rewriteFile := ""
+	err := filepath.Walk(self.dataDir, func(path string, info os.FileInfo, err error) error {
+		if err != nil {
+			return err
+		}
+		if info.IsDir() {
+			return nil
+		}
+		fileName := info.Name()
+		if len(fileName) >= 11 && strings.HasPrefix(fileName, "append.aof.") && !strings.HasSuffix(fileName, ".dat") {
+			if _, perr := strconv.ParseUint(fileName[11:], 10, 64); perr == nil {
+				appendFiles = append(appendFiles, fileName)
+			}
+		} else if fileName == "rewrite.aof" {
+			rewriteFile = fileName
+		}
+		return nil
+	})
+	return appendFiles, rewriteFile, err
+}
+
 func (self *Aof) Reset(aofFileIndex uint32, aofFileOffset uint32) error {
 	defer self.aofGlock.Unlock()
 	self.aofGlock.Lock()
@@ -1898,7 +1921,10 @@ func (self *Aof) Reset(aofFileIndex uint32, aofFileOffset uint32) error {
 
 	appendFiles, rewriteFile, err := self.FindAofFiles()
 	if err != nil {
-		return err
+		appendFiles, rewriteFile, err = self.findAofFilesUnchecked()
+		if err != nil {
+			return err
+		}
 	}
 	if rewriteFile != "" {
 		err = os.Remove(filepath.Join(self.dataDir, rewriteFile))
